@@ -4,8 +4,9 @@
 
    u8 values are `nat` (< 256); usize = nat; char = N.  Every Rust operation that can panic is
    checked: slice/Vec indexing (PIndex), `u8 + u8` (debug build: POverflow; release build: wraps
-   mod 256), the `assert!` that only exists with debug assertions (PUnwrap — Base.v has no
-   dedicated kind for a failed assertion; PUnwrap is its "explicit unwrap/expect/assert" kind).
+   mod 256).  Since fix 7a7de79 strings of more than 254 characters are handled by
+   `edit_distance_long` (usize rows) and the result saturates at 255; the former debug `assert!`
+   is gone (the pre-fix function survives as wf_min_alloc_old, PUnwrap = the failed assertion).
    `dbg = true`  is the build with debug assertions and overflow checks (the harness profile),
    `dbg = false` the release build. *)
 Require Import Base.
@@ -66,13 +67,51 @@ Fixpoint wf_outer (dbg : bool) (source target : text) (prev cur : list nat) (js 
       wf_outer dbg source target cur' prev rest                      (* std::mem::swap *)
   end.
 
+(* ---------- edit_distance_long(source, target): the same two rows over `usize`, freshly allocated ----------
+   (fix 7a7de79).  usize additions are modelled without overflow: every cell is <= max(|s|,|t|) + 1,
+   far below 2^64 for any slice that fits into memory.  Indexing is checked.
+     for (i, s) in source.iter().enumerate() {
+        current_row[i + 1] = (previous_row[i + 1] + 1).min(current_row[i] + 1).min(previous_row[i] + cost) } *)
+Fixpoint wfl_inner (t : char) (prev cur : list nat) (i : nat) (ss : text) : res (list nat) :=
+  match ss with
+  | [] => Ok cur
+  | s :: rest =>
+      let c := cost s t in
+      do p_i1 <- nth_chk prev (i + 1);
+      do c_i <- nth_chk cur i;
+      do p_i <- nth_chk prev i;
+      do cur' <- set_nth cur (i + 1) (Nat.min (Nat.min (p_i1 + 1) (c_i + 1)) (p_i + c));
+      wfl_inner t prev cur' (S i) rest
+  end.
+
+(* for (j, t) in target.iter().enumerate() { current_row[0] = j + 1; inner; swap } *)
+Fixpoint wfl_outer (source : text) (prev cur : list nat) (j : nat) (ts : text)
+  : res (list nat * list nat) :=
+  match ts with
+  | [] => Ok (prev, cur)
+  | t :: rest =>
+      do cur0 <- set_nth cur 0 (j + 1);
+      do cur' <- wfl_inner t prev cur0 0 source;
+      wfl_outer source cur' prev (S j) rest                          (* std::mem::swap *)
+  end.
+
+Definition wf_long (source target : text) : res nat :=
+  let prev0 := seq 0 (S (length source)) in            (* (0..=source.len()).collect() *)
+  let cur0 := repeat 0 (length source + 1) in          (* vec![0usize; source.len() + 1] *)
+  do '(prev, _) <- wfl_outer source prev0 cur0 0 target;
+  nth_chk prev (length source).
+
 (* edit_distance_min_alloc(source, target, previous_row, current_row): returns the distance and the
-   two buffers as the call leaves them (MutableDictionary::fuzzy_match reuses them). *)
+   two buffers as the call leaves them (MutableDictionary::fuzzy_match reuses them).  Strings of more
+   than 254 characters take the usize path, whose result saturates at u8::MAX; the caller's buffers are
+   not touched then. *)
 Definition wf_min_alloc (dbg : bool) (source target : text) (buf_prev buf_cur : list nat)
   : res (nat * list nat * list nat) :=
   let row_width := length source in
   let col_height := length target in
-  if dbg && ((255 <? row_width) || (255 <? col_height)) then Panic PUnwrap      (* assert!(..) *)
+  if (254 <? row_width) || (254 <? col_height) then
+    do r <- wf_long source target;
+    Ok (Nat.min r 255, buf_prev, buf_cur)               (* .min(u8::MAX as usize) as u8 *)
   else
     let prev0 := seq 0 (S (as_u8 row_width)) in       (* clear(); extend(0u8..=row_width as u8) *)
     let cur0 := resize buf_cur (row_width + 1) 0 in   (* resize(row_width + 1, 0) *)
@@ -83,6 +122,24 @@ Definition wf_min_alloc (dbg : bool) (source target : text) (buf_prev buf_cur : 
 (* edit_distance(source, target): fresh buffers *)
 Definition wf_u8 (dbg : bool) (source target : text) : res nat :=
   do '(r, _, _) <- wf_min_alloc dbg source target [] [];
+  Ok r.
+
+(* ---------- HISTORY: edit_distance_min_alloc before fix 7a7de79 (F19) — u8 rows for every length, guarded
+   only by a debug assertion.  Kept for the regression witness C15_wf_u8_old_refuted. *)
+Definition wf_min_alloc_old (dbg : bool) (source target : text) (buf_prev buf_cur : list nat)
+  : res (nat * list nat * list nat) :=
+  let row_width := length source in
+  let col_height := length target in
+  if dbg && ((255 <? row_width) || (255 <? col_height)) then Panic PUnwrap      (* assert!(..) *)
+  else
+    let prev0 := seq 0 (S (as_u8 row_width)) in
+    let cur0 := resize buf_cur (row_width + 1) 0 in
+    do '(prev, cur) <- wf_outer dbg source target prev0 cur0 (seq 1 col_height);
+    do r <- nth_chk prev row_width;
+    Ok (r, prev, cur).
+
+Definition wf_u8_old (dbg : bool) (source target : text) : res nat :=
+  do '(r, _, _) <- wf_min_alloc_old dbg source target [] [];
   Ok r.
 
 (* ---------- a clean functional two-row formulation (used by the proofs as the stepping stone
